@@ -167,10 +167,16 @@ def w_partial(ctx, rng, idx, param):
         gen.alias_equal_shapes(cores)
     t = tt.TT(cores)
     ctx.describe({'op': 'ortho_' + side, 'start': s, 'end': e, 'row': rows, 'col': cols, 'ranks': ranks})
+    kw = {}
+    if rng.random() < 0.35:
+        # a per-bond list of rank bounds that does NOT bind (every entry at least the rank of its own bond, entries differing from bond
+        # to bond - e.g. max_rank=list(t.ranks)): a partial sweep with it is still a sweep without truncation
+        kw['max_rank'] = [int(r_) + int(rng.integers(0, 3)) * int(rng.integers(0, 2)) for r_ in t.ranks]
+        ctx.describe({'op': 'ortho_' + side, 'start': s, 'end': e, 'row': rows, 'col': cols, 'ranks': ranks, 'max_rank': kw['max_rank']})
     if side == 'left':
-        call('TT.ortho_left', t.ortho_left, prop=P, start_index=s, end_index=e)
+        call('TT.ortho_left', t.ortho_left, prop=P, start_index=s, end_index=e, **kw)
     else:
-        call('TT.ortho_right', t.ortho_right, prop=P, start_index=s, end_index=e)
+        call('TT.ortho_right', t.ortho_right, prop=P, start_index=s, end_index=e, **kw)
 
 
 def finish(ctx):
